@@ -7,6 +7,7 @@
     observing every constrained symbol at every statement boundary, driven by programs (and host stores) that try
     to change the type."""
 import random, re
+import os
 from vlib import *
 import model_lang as ml
 import lang_diff as ld
@@ -153,7 +154,7 @@ class Sh:
         run_units(self.probe, [], units, self.res, on_crash, chunk=60)
 
     # ---------------------------------------------------------------- (b)
-    def twin_case(self, chunks, label):
+    def twin_case(self, chunks, label, must_accept=False):
         whole = "\n".join(chunks) + "\n"
         ops = ["new A 0", "parse A P %s" % hx(whole), "run A P 20000", "dump A nofn", "new B 0"]
         for i, c in enumerate(chunks):
@@ -169,6 +170,8 @@ class Sh:
             add_violation(self.res, "C02|crash:%s" % r.sig, "%s twin crashed: %s" % (label, r.sig), dict(wit, report=r.report[-3000:])); return
         rep = r.replies
         if not rep[1].startswith("ok"):
+            if must_accept and all(x.startswith("ok") for x in rep[5:5 + 2 * len(chunks)]):
+                self.viol("opaque-reassignment|unit-rejected", "%s: the unit is refused at compile time (%s) although every statement is accepted and runs when fed one at a time: `%s`" % (label, rep[1][:120], whole[:200].replace("\n", " ")), wit)
             bump(self.res, "batch_rejected"); return
         oc, intr, out, steps = ld.impl_outcome(rep[2], self.E)
         if intr:
@@ -188,6 +191,14 @@ class Sh:
                 break
         if outs != out:
             self.viol("stepwise-output", "%s: output differs: whole %r, stepwise %r" % (label, out[:120], outs[:120]), wit); return
+        # variable types never contradict what was compiled: after the run every symbol with a defined type holds a value of that type
+        for which, dumprep in (("whole program", rep[3]), ("stepwise", rep[-1])):
+            if not dumprep.startswith("dump"): continue
+            for name, sy in parse_dump(dumprep)["syms"].items():
+                why = type_mismatch(sy["type"], sy["value"])
+                if why:
+                    self.viol("symbol-vs-value|%s" % sy["type"][0], "%s (%s): variable %s: %s (value %s)" % (label, which, name, why, sy["value"][:60]), wit); return
+            bump(self.res, "symbol_tables_checked")
         if out:
             self.res["nontrivial"].add(case_hash(["b", whole]))
         if len(self.res["samples"]) < 2:
@@ -202,16 +213,29 @@ class Sh:
             chunks = ml.render(funcs, prog, r, toplevel_split=True)
             self.twin_case(chunks, "generated")
             if self.res["counters"].get("worker_crashes", 0) > CRASH_BUDGET: return
+        # a variable re-assigned from an opaque expression is opaque for the rest of the unit (manual: opaque values are checked at run time):
+        # such units compile, run, and behave as when fed one statement at a time
+        if self.desc["k"] == 0:
+            idf = "function idf(a) return undefined is begin return a; end;"
+            for body in ['x = 1; x = idf("s"); print x.count();', 'x = 1; x = idf(tab(2, 5)); print x.count(); x.concat(3); print x.at(2);', 'x = "s"; x = idf(7); print x + 1;',
+                         'x = 2.5; x = idf(tup(1, "a")); print x@2;', 'x = true; x = idf(raw(2, 65)); print x.count();', 'x = 1; x = null; x = idf("q"); print x + "z";',
+                         'o = tab(); o = idf(tab(1, "e")); x = 5; x = o.at(0); print x.count();', 'x = tab(1, 1); x = idf(4); print x * 2;',
+                         'x = 1; if true then x = idf("branch"); end if; print strlen(x);', 'x = 1; for i in 1 to 2 loop x = idf("loop"); end loop; print x.count();',
+                         'r = tup(1, 2); r = idf(tup("a", "b")); print r@1 + "c";', 'x = 1; y = x; x = idf("s"); y = x; print y.count();']:
+                stmts = [idf] + [c.strip() + ";" for c in body.split(";") if c.strip()] if " then " not in body and " loop " not in body else [idf, body]
+                self.twin_case(stmts, "opaque-reassignment", must_accept=True)
+                bump(self.res, "opaque_reassignment_units")
         # type-changing straight-line programs: every variable changes type several times
         vals = ["1", "2.5", '"s"', "true", "tab(2, 1)", 'tab(1, "a")', 'tup(1, "a")', "tup(2.5)", "raw(2, 65)", "null", "int()", "str()", "tab(1, tab(1, 1))", "x + 1", "str(x)", "tab(2, x)", "y", "tup(y, 1)",
                 'tab(2, tup(1, "a"))', 'tup(1, "a")', 'tup(2.5)', 'tab(2, tup(1, "a"))']
+        vals += ["o.at(0)", "idf(\"s\")", "idf(tab(1, 1))", "o.at(1)", "idf(2.5)"]
         USES = {'tup(1, "a")': ['print {v}@1 " " {v}@2;', '{v}.set@1(5);', 'w = {v}@2 + "z"; print w;', '{v}.set@2("k"); print {v}@2;'],
                 "tup(2.5)": ["print {v}@1;", "{v}.set@1(0.5);"],
                 'tab(2, tup(1, "a"))': ["print {v}.at(0)@1;", "forall e in {v} loop print e@2; end loop;", '{v}.put(1, tup(7, "q")); print {v}.at(1)@2;'],
                 "tab(2, 1)": ["print {v}.at(1) + 1;", "{v}.put(0, 5);"], 'tab(1, "a")': ['print {v}.at(0) + "z";'],
                 "tab(1, tab(1, 1))": ["print {v}.at(0).at(0) + 1;", "{v}.put(0, tab(2, 4));"], "tup(y, 1)": ["print {v}@2 + 1;"]}
         for i in range(n // 2):
-            st = ["x = 1;", "y = \"q\";"]
+            st = ["function idf(a) return undefined is begin return a; end;", "o = tab(1, \"s\"); o.concat(\"t\");", "x = 1;", "y = \"q\";"]
             for _ in range(r.randint(2, 8)):
                 v = r.choice(["x", "y", "z"]); e = r.choice(vals)
                 if v == "z" and ("x" in e or "y" in e) and r.random() < 0.5: e = "1"
@@ -232,6 +256,36 @@ class Sh:
             st = ["x = %s;" % vs[0], blk % " ".join("x = %s;" % v for v in seq), use, "print typeof(x) \" \" typeof(b);"]
             if r.random() < 0.5: st.insert(2, "y = x;")
             self.twin_case(st, "dead-retyping")
+
+    def readers(self):
+        """read/readln/input refill a typed variable from standard input: the variable keeps the type it was compiled with (observed through
+        typeof() and through a type-specific operation), run by the real bloc binary because only a process has a standard input"""
+        import subprocess, tempfile, shutil
+        bdir = build("asan"); blocbin = os.path.join(bdir, "apps", "bloc")
+        env = dict(os.environ); env["ASAN_OPTIONS"] = ASAN_OPTS; env["UBSAN_OPTIONS"] = UBSAN_OPTS; env["LD_LIBRARY_PATH"] = os.path.join(bdir, "libonly")
+        work = tempfile.mkdtemp(prefix="c02rd_")
+        data = b"0123456789abcdefghijklmnopqrstuvwxyzABCDEFGHIJKLMNOPQRSTUVWXYZ\nsecond line of the input\nthird\n" * 3
+        try:
+            for decl, kind, grow in (("b:bytes;", "bytes", "b.concat(raw(2, 66));"), ("b = raw();", "bytes", "b.concat(raw(2, 66));"), ('b = "";', "string", 'b.concat("BB");'), ("b:string;", "string", 'b.concat("BB");')):
+                for size in (1, 2, 8, 31, 32, 33, 64, 100, 1000):
+                    for call in ("read(b, %d)" % size, "readln(b)", "read(b)"):
+                        text = '%s n = %s; print typeof(b); %s print typeof(b) " " b.count(); m = %s; print typeof(b); %s print b.count() > 1;\n' % (decl, call, grow, call, grow)
+                        fn = os.path.join(work, "p.bloc"); open(fn, "w").write(text)
+                        try:
+                            p = subprocess.run([blocbin, fn], input=data, stdout=subprocess.PIPE, stderr=subprocess.PIPE, env=env, cwd=work, timeout=60)
+                        except subprocess.TimeoutExpired:
+                            self.res["inconclusive"] += 1; continue
+                        self.res["evaluations"] += 1; bump(self.res, "reader_programs")
+                        out = p.stdout.decode("latin-1").split("\n"); err = p.stderr.decode("latin-1")
+                        wit = {"ops": [], "program": text, "stdin": data[:80].decode()}
+                        if "Sanitizer" in err or "runtime error:" in err or p.returncode not in (0, 1):
+                            add_violation(self.res, "C02|crash:%s" % (sig_of_report(err) or p.returncode), "reader program crashed: %s" % text[:100], dict(wit, report=err[-2000:])); continue
+                        types = [l.split(" ")[0] for l in out if l.split(" ")[0] in ("bytes", "string", "undefined", "integer", "boolean", "table", "tuple", "decimal")]
+                        if p.returncode != 0 or any(t != kind for t in types) or len(types) < 3:
+                            self.viol("reader|%s|%s" % (kind, call.split("(")[0]), "`%s`: a variable compiled as %s shows types %r / exit %d %s" % (text.strip()[:160], kind, types, p.returncode, err.strip()[:100]), wit); continue
+                        self.res["nontrivial"].add(case_hash(["rd", text]))
+        finally:
+            shutil.rmtree(work, ignore_errors=True)
 
     # ---------------------------------------------------------------- (c)
     def constraints(self):
@@ -289,9 +343,11 @@ class Sh:
                    't = tab(2, tab(2, 1)); forall e in t loop e = idf(tab(1, 2.5)); end loop;',
                    't = tab(2, tab(2, 1)); t.put(1, idf(3.5));',
                    't = tab(2, 1); forall e in t loop e = idf(tup(1)); end loop;',
+                   't = tab(1, "a"); t.concat(null); t.concat(idf(null));', 't = tab(1, true); t.concat(null); t.put(0, null);', 't = tab(1, raw(1, 1)); t.concat(null);',
+                   't = tab(1, "a"); t.insert(0, null); t.put(1, idf(null));', 't = tab(1, tab(1, "a")); t.concat(null); t.at(0).concat(null);',
                    'r = tup(1, "a"); r.set@1(idf("s")); t = tab(1, r);',
                    'r = tup(1, "a"); r.set@2(idf(tup(1))); t = tab(1, r);']
-        readers = ["t", "t.at(0)", "t.at(1)", "t.at(0)@1", "t.at(0)@2", "t.at(1)@1", "t.at(0).at(0)", "t.at(1).at(0)", "t.at(0).count()", "r", "r@1", "r@2"]
+        readers = ["t", "t.at(0)", "t.at(1)", "t.at(2)", "t.at(0).at(1)", "t.at(0)@1", "t.at(0)@2", "t.at(1)@1", "t.at(0).at(0)", "t.at(1).at(0)", "t.at(0).count()", "r", "r@1", "r@2"]
         for wi, wtext in enumerate(writers):
             if wi % n != k: continue
             for route in ("batch", "stepwise"):
@@ -335,6 +391,7 @@ def plan(tier, seed):
     sh = [{"kind": "matrix", "k": k, "n": 8, "seed": seed, "tier": tier} for k in range(8)]
     sh += [{"kind": "twins", "k": k, "n": 5, "seed": seed, "tier": tier} for k in range(5)]
     sh += [{"kind": "constraints", "k": k, "n": 2, "seed": seed, "tier": tier} for k in range(2)]
+    sh += [{"kind": "readers", "k": 0, "n": 1, "seed": seed, "tier": tier}]
     return sh
 
 
